@@ -16,6 +16,8 @@ where
     in_buffer: [u8; BUF_SIZE / 2],
     replaced: BytesMut,
     is_done: bool,
+    /// the source failed: what it had delivered during the failed fill is lost
+    is_failed: bool,
 }
 
 const BUF_SIZE: usize = 1024;
@@ -27,6 +29,7 @@ impl<R: std::io::Read> NormalizedReader<R> {
             in_buffer: [0u8; BUF_SIZE / 2],
             replaced: BytesMut::with_capacity(BUF_SIZE),
             is_done: false,
+            is_failed: false,
         }
     }
 
@@ -42,7 +45,16 @@ impl<R: std::io::Read> NormalizedReader<R> {
         // If this is a CR, it wasn’t handled in the previous call.
         let last_char = self.in_buffer[self.in_buffer.len() - 1];
 
-        let read = fill_buffer(&mut self.source, &mut self.in_buffer, None)?;
+        if self.is_failed {
+            return Err(std::io::Error::other("source failed before"));
+        }
+        let read = match fill_buffer(&mut self.source, &mut self.in_buffer, None) {
+            Ok(read) => read,
+            Err(err) => {
+                self.is_failed = true;
+                return Err(err);
+            }
+        };
         if read < self.in_buffer.len() {
             // When `crate::util::fill_buffer` returns the buffer not fully filled,
             // the underlying reader is guaranteed to be empty -> we're done.
